@@ -36,6 +36,11 @@ def _path(qu, backend, A, k, hassig, B):
         return "?"
 
 
+def _arpack_rng(rng):
+    """ARPACK restarts (after a breakdown on a degenerate spectrum) draw random vectors: seed them"""
+    return np.random.default_rng(int(rng.integers(1 << 30)))
+
+
 def _sig4(rng, grid):
     """4*sigma: odd -> quarter grid (no equidistant integers), 2 mod 4 -> half grid (ties)"""
     base = int(rng.integers(-4, 4)) * 4
@@ -68,6 +73,8 @@ def observe_eigh(rng, qu, n, cplx, rep, backend, which, k, sort, gen, fn, grid="
         kw.update(v0=(rng.standard_normal((n, k)) + (1j * rng.standard_normal((n, k)) if cplx else 0)).astype(dt), tol=1e-10, maxiter=400)
     else:
         kw.update(v0=(rng.standard_normal(n) + (1j * rng.standard_normal(n) if cplx else 0)).astype(dt))
+    if path == "SCIPY":
+        kw["rng"] = _arpack_rng(rng)
     f = {"eigh": qu.eigh, "eigvalsh": qu.eigvalsh, "eigvecsh": qu.eigvecsh}[fn]
     c = Catch().run(lambda: f(Ar, **kw))
     r = {"ev": "eigh", "tid": 0, "fn": fn, "n": n, "cplx": bool(cplx), "rep": rep, "brep": gen, "gen": gen != "none",
@@ -111,7 +118,8 @@ def observe_bounds(rng, qu, n, cplx, rep, backend):
     A = U.herm_from_spec(rng, spec, cplx)
     Ar = U.as_rep(A, rep)
     path = _path(qu, backend, Ar, 1, False, None)
-    c = Catch().run(lambda: qu.bound_spectrum(Ar, backend=backend.lower()))
+    kw = {"rng": _arpack_rng(rng)} if path == "SCIPY" else {}
+    c = Catch().run(lambda: qu.bound_spectrum(Ar, backend=backend.lower(), **kw))
     r = {"ev": "bounds", "tid": 0, "n": n, "cplx": bool(cplx), "rep": rep, "brep": "none", "backend": backend, "path": path,
          "which": "SA", "k": 1, "hassig": False, "spec": spec, "vals": [], "ongrid": False, "exc": c.exc, "warn": c.warn, "full": False}
     if not c.exc:
@@ -165,6 +173,8 @@ def observe_eig(rng, qu, n, cplx, rep, backend, which, k, sort, fn):
             kw["which"] = which
         if hassig:
             kw["sigma"] = sig4 / 4.0
+        if path == "SCIPY":
+            kw["rng"] = _arpack_rng(rng)
     f = {"eig": qu.eig, "eigvals": qu.eigvals}[fn]
     c = Catch().run(lambda: f(Nr, **kw))
     w = "SA" if which == "default" else which
@@ -223,6 +233,8 @@ def observe_window(rng, qu, n, cplx, rep, backend, k, fn):
         kw["w_sz"] = wz[0] / wz[1]
     if not dense_route:
         kw["v0"] = (rng.standard_normal(n) + (1j * rng.standard_normal(n) if cplx else 0)).astype(complex if cplx else float)
+    if not dense_route and (rep == "linop" or backend == "SCIPY"):  # every inner solve runs on ARPACK
+        kw["rng"] = _arpack_rng(rng)
     f = {"eigh_window": qu.eigh_window, "eigvalsh_window": qu.eigvalsh_window}[fn]
     c = Catch().run(lambda: f(Ar, w0[0] / w0[1], k, **kw))
     r = {"ev": "window", "tid": 0, "fn": fn, "n": n, "cplx": bool(cplx), "rep": rep, "backend": backend, "path": path, "k": k,
@@ -306,6 +318,7 @@ def observe_svds(rng, qu, m, n, cplx, rep, backend, k, vecs, fn="svds"):
         kw = {}
         if r["path"] == "SCIPY":
             kw["v0"] = (rng.standard_normal(p) + (1j * rng.standard_normal(p) if cplx else 0)).astype(complex if cplx else float)
+            kw["rng"] = _arpack_rng(rng)
         c = Catch().run(lambda: qu.svds(Ar, k, return_vecs=vecs, backend=backend, **kw))
     r["exc"], r["warn"] = c.exc, c.warn
     if not c.exc:
